@@ -72,14 +72,16 @@ STD_INPUTS = ["/vhome/user/a.go", "/vhome/userx/a.go", "/vhome/user/p/vhome/user
               "/usr/x.go", "/opt/other/z.go", "rel/a.go", "", "/", "/Volumes/vWork/work/a.go", "/Volumes/solo",
               "/x/Volumes/v/w/a.go", "/vhome/user/Volumes/v/w.go", "/opt//other/./z.go", "/usr/lib/../x.go",
               "/vhome/user/", "vhome/user/a.go", "/mnt/vhome/user/a.go", "/srv/Secret/app/m.go",
-              # relative paths: under / equal to / only string-prefixed by / containing a relative directory, outside
-              "build/secretproj/cmd/main.go", "build/secretproj/x.go", "build/secretproj", "build/secretprojx/main.go",
-              "build/secretproj/k/build/secretproj/m.go", "x/build/secretproj/a.go", "build/other/a.go", "./a.go", "../x/y.go",
-              # the absolute twin of a relative directory; paths near the directories the process changes to
-              "/build/secretproj/a.go", "/usr/share/doc/x.go", "/etc/x.go", "/x.go"]
+              # relative paths under / only string-prefixed by a relative directory, outside; the absolute twin
+              "build/secretproj/cmd/main.go", "build/secretprojx/main.go", "build/other/a.go", "/build/secretproj/a.go", "/etc/x.go"]
 # the universe of the scenario that concentrates on relative paths and on the working directory
 RELWD_INPUTS = ["/vhome/user/a.go", "/usr/lib/go/x.go", "/usr/lib64/x.go", "/usr/lib", "/usr/x.go", "/opt/other/z.go", "rel/a.go",
-                "", "/", "/usr/lib/../x.go", "vhome/user/a.go"] + STD_INPUTS[-13:]
+                "", "/", "/usr/lib/../x.go", "vhome/user/a.go",
+                # relative paths: under / equal to / only string-prefixed by / containing a relative directory, outside
+                "build/secretproj/cmd/main.go", "build/secretproj/x.go", "build/secretproj", "build/secretprojx/main.go",
+                "build/secretproj/k/build/secretproj/m.go", "x/build/secretproj/a.go", "build/other/a.go", "./a.go", "../x/y.go",
+                # the absolute twin of a relative directory; paths near the directories the process changes to
+                "/build/secretproj/a.go", "/usr/share/doc/x.go", "/etc/x.go", "/x.go"]
 STD_SITES = ["homeA", "homeX", "homeInner", "homeWork", "homeWorkshop", "secApp", "secX", "secInner", "cwdIn", "cwdX",
              "cwdUp", "other", "vol", "volInner", "homeVol"]
 RX_ASSUMES = ["HasCovered", "HasShorterRel", "HasRxMatch"]
